@@ -1,25 +1,14 @@
-//! scratch: D4 sanity
-use ff::Field;
-use group::{Curve, Group};
-use midnight_curves::{CurveExt, G1Projective, G2Projective};
-use subtle::ConstantTimeEq;
+//! Correspondence harness of property C11 (curve types implement the group law; encodings are
+//! canonical and checked). Runs the real `midnight-curves` types on structured operand classes,
+//! prints canonical answers for the Lean model `mzk-c11`, and checks the property directly
+//! against an affine group law over `num-bigint` (module `big`).
+mod big;
+mod jj;
+
+use mzkh::Ctx;
+
 fn main() {
-    let p = G1Projective::generator().double();
-    let (x, y, z) = p.jacobian_coordinates();
-    let q = G1Projective::new_jacobian(x, y, z);
-    println!("g1 roundtrip {:?}", bool::from(q.is_some()) && q.unwrap() == p);
-    let n: G1Projective = p.to_affine().into();
-    println!("g1 cteq {:?} eq {:?}", bool::from(p.ct_eq(&n)), p == n);
-    println!("g1 cteq-neg {:?}", bool::from(p.ct_eq(&(-n))));
-    let zi = z.invert().unwrap();
-    println!("g1 affine-x {:?}", x * zi.square() == p.to_affine().x());
-    let p = G2Projective::generator().double();
-    let (x, y, z) = p.jacobian_coordinates();
-    let q = G2Projective::new_jacobian(x, y, z);
-    println!("g2 roundtrip {:?}", bool::from(q.is_some()) && q.unwrap() == p);
-    let n: G2Projective = p.to_affine().into();
-    println!("g2 cteq {:?} eq {:?}", bool::from(p.ct_eq(&n)), p == n);
-    let id = G1Projective::identity();
-    let (x, y, z) = id.jacobian_coordinates();
-    println!("id roundtrip {:?}", G1Projective::new_jacobian(x, y, z).unwrap() == id);
+    let mut ctx = Ctx::from_args("C11");
+    jj::run(&mut ctx);
+    ctx.finish();
 }
